@@ -25,7 +25,8 @@ from typing import Any, Dict, List, Optional, Tuple
 
 from .. import core, defx
 
-TYPES = ["int32", "double", "char[4]", "HS"]
+TYPES = ["int32", "double", "char[4]", "HS", "float[NCH]"]
+CONSTS = {"NCH": 4, "NB": 3}
 STRUCTS = {"HS": {"fields": {"u": "int16", "v": "int16"}}}
 Fields = Tuple[Tuple[str, str], ...]
 
@@ -113,7 +114,7 @@ def _fields_first(name: str, mid: int, fields: Fields) -> str:
 
 
 def relocations(name: str, mid: int, fields: Fields) -> List[Tuple[str, Dict[str, Any], str, Dict[str, Any]]]:
-    sd = {"struct_defs": STRUCTS}
+    sd = {"constants": CONSTS, "struct_defs": STRUCTS}
     md = msg_section(name, mid, fields)
     body = defx.render_file({"message_defs": md}).split("message_defs:\n", 1)[1].rstrip("\n")
     body = body.replace("\n", "\n\n")
@@ -127,10 +128,15 @@ def relocations(name: str, mid: int, fields: Fields) -> List[Tuple[str, Dict[str
         ("comments", {"root.yaml": {"imports": ["structs.yaml", "c.yaml"]}, "structs.yaml": sd, "c.yaml": COMMENT_TEXT.format(body=body)}, "root.yaml", {}),
         ("fields-before-id", {"root.yaml": {"imports": ["structs.yaml", "k.yaml"]}, "structs.yaml": sd, "k.yaml": _fields_first(name, mid, fields)}, "root.yaml", {}),
         ("with-core", {"root.yaml": {**sd, "message_defs": md}}, "root.yaml", {"import_coredefs": True}),
+        # the constants that field types mention live next to the message or in an imported file (only the TEXT of a type is hashed)
+        ("constants-elsewhere", {"root.yaml": {"imports": ["k.yaml"], "struct_defs": STRUCTS, "message_defs": md}, "k.yaml": {"constants": CONSTS}}, "root.yaml", {}),
+        ("message-elsewhere", {"root.yaml": {"imports": ["sub/m.yaml"], "constants": {"Q": 1}}, "sub/m.yaml": {"imports": ["../k.yaml"], "struct_defs": STRUCTS, "message_defs": md},
+                               "k.yaml": {"constants": CONSTS}}, "root.yaml", {}),
+        ("constants-other-values", {"root.yaml": {"constants": {"NCH": 9, "NB": 2}, "struct_defs": STRUCTS, "message_defs": md}}, "root.yaml", {}),
         # the struct used as a field type changes size and alignment: the message's own text (field names + type TEXTS) does not
-        ("struct-edited-wider", {"root.yaml": {"struct_defs": {"HS": {"fields": {"u": "double", "v": "int16"}}}, "message_defs": md}}, "root.yaml", {}),
-        ("struct-edited-narrower", {"root.yaml": {"struct_defs": {"HS": {"fields": {"u": "char"}}}, "message_defs": md}}, "root.yaml", {}),
-        ("struct-is-alias", {"root.yaml": {"aliases": {"HS": "int64"}, "message_defs": md}}, "root.yaml", {}),
+        ("struct-edited-wider", {"root.yaml": {"constants": CONSTS, "struct_defs": {"HS": {"fields": {"u": "double", "v": "int16"}}}, "message_defs": md}}, "root.yaml", {}),
+        ("struct-edited-narrower", {"root.yaml": {"constants": CONSTS, "struct_defs": {"HS": {"fields": {"u": "char"}}}, "message_defs": md}}, "root.yaml", {}),
+        ("struct-is-alias", {"root.yaml": {"constants": CONSTS, "aliases": {"HS": "int64"}, "message_defs": md}}, "root.yaml", {}),
         ("no-autopad-validate", {"root.yaml": {**sd, "message_defs": md}}, "root.yaml", {"validate_alignment": False}),
     ]
     return out
@@ -144,7 +150,7 @@ def check_base(args) -> Dict[str, Any]:
     d = core.scratch_dir("c13")
     try:
         kw = dict(import_coredefs=False)
-        sd = {"struct_defs": STRUCTS}
+        sd = {"constants": CONSTS, "struct_defs": STRUCTS}
         h0 = hash_of({"root.yaml": {**sd, "message_defs": msg_section(name, mid, fields)}}, name, d, **kw)
         stats["parses"] += 1
         # the map (name, id, ordered fields) <-> hash must be a bijection over everything reachable by 1 (and 2) edits
@@ -200,6 +206,26 @@ def reuse_cases(_=None) -> Dict[str, Any]:
         h_reuse2 = hash_of({"root.yaml": {"struct_defs": src2, "message_defs": {"RM": {"id": 3500, "fields": "SRC"}}}}, "RM", d, **kw)
         if h_reuse1 == h_reuse2:
             problems.append({"kind": "reuse-source-edit-keeps-hash", "message": "RM: {id: 3500, fields: SRC}", "edit": "field c: int32 appended to SRC", "hash": h_reuse1[:8]})
+        # the reusing definition's OWN name and id are part of its text: renaming it or changing its id changes the hash, and it never
+        # shares the hash of the definition it borrows from (struct or message)
+        for src_kind in ("struct", "message"):
+            srcsec = {"struct_defs": src1} if src_kind == "struct" else {"message_defs": {"SRC": {"id": 3499, "fields": {"a": "int32", "b": "double"}}}}
+
+            def prog(name, mid):
+                f = {k: dict(v) for k, v in srcsec.items()}
+                f.setdefault("message_defs", {})
+                f["message_defs"][name] = {"id": mid, "fields": "SRC"}
+                return {"root.yaml": f}
+
+            hb = hash_of(prog("RM", 3500), "RM", d, **kw)
+            variants = {"rename": hash_of(prog("RMX", 3500), "RMX", d, **kw), "id": hash_of(prog("RM", 3501), "RM", d, **kw)}
+            for label, h in variants.items():
+                if h == hb:
+                    problems.append({"kind": "edit-keeps-hash", "base": ["RM (fields: SRC, SRC a " + src_kind + ")", 3500, []], "edit": label, "same_as": "base", "hash": hb[:8], "depth": 1})
+            if src_kind == "message":
+                p = defx.parse_model(defx.Program(prog("RM", 3500)).write(d), **kw)
+                if p.message_defs["RM"].hash == p.message_defs["SRC"].hash:
+                    problems.append({"kind": "edit-keeps-hash", "base": ["RM (fields: SRC)", 3500, []], "edit": "another name and id than SRC", "same_as": "SRC", "hash": hb[:8], "depth": 1})
     finally:
         core.rmtree(d)
     return {"problems": problems, "stats": {"parses": 2}}
@@ -226,7 +252,7 @@ def cross_process(bs: List[Fields], d: str) -> Tuple[List[Dict[str, Any]], int]:
     msgs = {}
     for bi, f in enumerate(bs):
         msgs.update(msg_section(f"BASE{bi}", 3000 + bi, f))
-    files = {"root.yaml": defx.render_file({"struct_defs": STRUCTS, "message_defs": msgs})}
+    files = {"root.yaml": defx.render_file({"constants": CONSTS, "struct_defs": STRUCTS, "message_defs": msgs})}
     spec = os.path.join(d, "files.json")
     with open(spec, "w") as fh:
         json.dump(files, fh)
@@ -266,7 +292,7 @@ def cross_language(bs: List[Fields], d: str) -> Tuple[List[Dict[str, Any]], Dict
     for k, nm in enumerate(("hash_config", "geohash_fix", "geofix", "config", "HASH_UPPER", "MT_THING", "THING", "MDF_OTHER", "OTHER", "mt_lower", "lower",
                             "mid_point", "point", "defines_x", "x_hash_")):
         msgs[nm] = {"id": 3700 + k, "fields": {"a": "int32"} if k % 2 else None}
-    prog = defx.Program({"root.yaml": {"struct_defs": STRUCTS, "message_defs": msgs}})
+    prog = defx.Program({"root.yaml": {"constants": CONSTS, "struct_defs": STRUCTS, "message_defs": msgs}})
     try:
         paths = defx.compile_program(prog, d, name="hashes")
     except Exception as e:
